@@ -118,7 +118,7 @@ StringDictionaryHASHHF::StringDictionaryHASHHF(IteratorDictString *it, uint len,
 
   // Building the Hash representation
   size_t reservedStrings = MEMALLOC;
-  textStrings = new uchar[reservedStrings];
+  textStrings = new uchar[reservedStrings]();
   bytesStrings = 0;
   textStrings[bytesStrings] = 0;
 
